@@ -10,5 +10,5 @@ import (
 func TestMain(m *testing.M) { hk.Main(m, "C05") }
 
 func TestS3(t *testing.T) {
-	hk.RunSub(t, hk.Sub[Plan]{Name: "s3/probes", Quick: 4000, Thorough: 30000, Gen: Gen, Run: Run, Journal: true})
+	hk.RunSub(t, hk.Sub[Plan]{Name: "s3/probes", Quick: 8000, Thorough: 40000, Gen: Gen, Run: Run, Journal: true})
 }
